@@ -14,7 +14,7 @@ F64_EDGE = [0x0000000000000000, 0x8000000000000000, 0x0000000000000001, 0x800000
             0x4340000000000000, 0x4340000000000001, 0xc340000000000001, 0x43e0000000000000, 0x3fb999999999999a,
             0x39b4484bfeebc2a0, 0x42dc12218377de6b, 0x3ff8000000000000, 0x4004000000000000, 0x40f86a0000000000]
 SPECIAL = [0x7c, 0x5c, 0x00, 0x61, 0x62, 0x01, 0xff, 0x80]
-ZOPS = ("u64b", "cblk", "bb", "bbt", "dict", "tag", "f64", "dec-u64b", "dec-cblk", "dec-bb", "dec-bbt", "dec-dict",
+ZOPS = ("u64b", "cblk", "bb", "bbt", "col", "dict", "tag", "f64", "dec-u64b", "dec-cblk", "dec-bb", "dec-bbt", "dec-dict",
         "dec-dictv", "dec-tag")
 
 
@@ -206,6 +206,31 @@ def gen_tv(rng):
     return "tv %s null %s" % (eng, rng.choice(["str", "bin", "int", "sarr", "iarr"] + (["ts"] if eng == "t" else [])))
 
 
+REFUSED_F64 = [0x7ff8000000000001, 0x7ff0000000000000, 0xfff0000000000000, 0x7ff8000000000000, 0x0000000000000001]
+
+
+def gen_col(rng):
+    """measure column (field / tag column) values: encodeXColumn -> decodeColumnValues"""
+    t = rng.choice("IFFFS")
+    if t == "I":
+        _, vs = gen_i64_list(rng)
+        its = [hx(i64_to_tag(v)) for v in vs[:64]]
+    elif t == "F":
+        _, bs = gen_float_bits(rng)
+        its = ["%016x" % b for b in bs]
+        q = rng.random()
+        if q < 0.35:
+            # lists the decimal conversion refuses: NaN / Inf / exponent spread too wide to scale
+            its[rng.randrange(len(its))] = "%016x" % rng.choice(REFUSED_F64)
+        elif q < 0.5:
+            its += ["%016x" % f2b(1e-300), "%016x" % f2b(1e300)]
+    else:
+        its = [hx(i) for i in (gen_dict_items(rng) if rng.random() < 0.7 else gen_items(rng, 12))]
+    if t in "IF" and rng.random() < 0.2:
+        its[rng.randrange(len(its))] = rng.choice(["n", "6e756c6c"])
+    return "col %s %s" % (t, " ".join(its))
+
+
 def gen_bbt(rng):
     """EncodeBytesBlock + tail, decoded by a zero-value decoder's DecodeWithTail: all-empty / all-nil / mixed blocks"""
     n = rng.choice([1, 1, 2, 3, 5, 9])
@@ -367,7 +392,7 @@ def craft_dict(rng, items, enc):
     # kinds that make the *pinned* decoder spin or allocate gigabytes are drawn rarely: one hit proves the point
     # and each costs the driver's time limit on an unrepaired tree
     k = rng.choice(["idx=len", "idx=len+1", "idx-big", "odd", "sum+1", "sum-1", "width0", "width33", "width255",
-                    "len-inflated", "empty-rle", "valid"] if rng.random() < 0.97 else ["huge-count", "max-count", "len-max", "width0-huge"])
+                    "len-inflated", "empty-rle", "valid", "sum=2^32+n", "sum=2*2^32+n", "sum=2^32"] if rng.random() < 0.97 else ["huge-count", "max-count", "len-max", "width0-huge"])
     r = rle(idx)
     if k == "idx=len":
         r[2 * rng.randrange(len(r) // 2)] = nv
@@ -385,7 +410,19 @@ def craft_dict(rng, items, enc):
         r[2 * rng.randrange(len(r) // 2) + 1] = rng.choice([2**20, 2**28, 2**31])
     elif k == "max-count":
         r[2 * rng.randrange(len(r) // 2) + 1] = 2**32 - 1
-    if k == "width0":
+    cnt = None
+    if k in ("sum=2^32+n", "sum=2*2^32+n", "sum=2^32"):
+        # run lengths that add up to itemsCount only modulo 2^32 (a 32-bit running total would accept them);
+        # every index is valid, so only the total distinguishes the stream from a good one
+        i0 = rng.randrange(nv)
+        if k == "sum=2^32+n":
+            r = [i0, 2**32 - 1, i0, n + 1]
+        elif k == "sum=2*2^32+n":
+            r = [i0, 2**32 - 1, i0, 2**32 - 1, i0, n + 2]
+        else:
+            r, cnt = [i0, 2**32 - 1, i0, 1], rng.choice([0, 1, 4])
+        tail = bitpack(r, width=32)
+    elif k == "width0":
         tail = bitpack([], width=0, length=rng.choice([1, 8, 1000, 70000]))
     elif k == "width0-huge":
         tail = bitpack([], width=0, length=rng.choice([2**24, 2**32 - 1]))
@@ -401,6 +438,8 @@ def craft_dict(rng, items, enc):
         tail = bitpack([])
     else:
         tail = bitpack(r)
+    if cnt is not None or k.startswith("sum="):
+        return k, head + tail, (n if cnt is None else cnt)
     return k, head + tail, rng.choice([n, n, n, n + 1, max(0, n - 1), 0, 9000])
 
 
@@ -449,6 +488,7 @@ class C11(vlib.Spec):
         "dictionary_legacy_panics_index",
         "bitPacking_legacy_unbounded",
         "rle_legacy_unbounded",
+        "rle_sum32_counterexample",
         "idZ_lawful"]] + ["Banyan.Tie.C11." + t for t in [
         "encodeType_tie",
         "modeOrder_tie",
@@ -517,6 +557,9 @@ class C11(vlib.Spec):
                 continue
             if q < 0.115:
                 out.append(gen_bbt(rng))
+                continue
+            if q < 0.15:
+                out.append(gen_col(rng))
                 continue
             r = rng.random()
             if r < 0.22:
@@ -684,6 +727,8 @@ class C11(vlib.Spec):
         f = line.split(" ", 2)
         if f[0] in ("tag", "dec-tag"):
             return f[0] + "-" + f[1]
+        if f[0] == "col":
+            return "col-" + f[1]
         if f[0] == "tv":
             return "tv-%s-%s" % (f[1], f[2].split(" ", 1)[0])
         return f[0]
@@ -748,6 +793,12 @@ class C11(vlib.Spec):
         if op == "va":
             want = [("-" if x in ("n", "-") else x) for x in a]
             return None if o[1:] == want else ("violation", "var-array round trip: wrote %s read %s" % (want[:8], o[1:9]))
+        if op == "col":
+            if o and o[-1] == "=" and len(o) == 2:
+                return None
+            if a[0] == "F" and len(o) > 2 and o[1] == "NE" and only_neg_zero(a[1:], o[2:]):
+                return ("known", "F1z", "measure float64 column: -0.0 accepted by the decimal codec is read back as +0.0")
+            return ("violation", "measure column values (type %s) do not round-trip: %s" % (a[0], g[:200]))
         if op == "tag":
             if g == "PANIC":
                 bad = a[0] in "IF" and any(x not in ("n", "6e756c6c") and len(x) != 16 for x in a[1:])
